@@ -39,7 +39,7 @@ let build_cmd cmd tk = match cmd with
         | Prepared (st, dt, t, anc) ->
             Sched_cmds.reset ();
             Sched_cmds.st := Some st; Sched_cmds.dt := Some dt; Sched_cmds.s := Some (init_state st); Sched_cmds.ds := Some (init_dstate dt);
-            last_tables := Some (t, anc); (if check_static sc t anc && check_static2 sc t then "ok certified" else "ok uncertified") ^ (if flat_certified st then " flat" else "") ^ (if uniform_certified st then " uniform" else "") ^ (if init_before_untilb st then " ibu" else "")
+            last_tables := Some (t, anc); (if check_static sc t anc && check_static2 sc t then "ok certified" else "ok uncertified") ^ (if flat_certified st then " flat" else "") ^ (if uniform_certified st then " uniform" else "") ^ (if init_before_untilb st then " ibu" else "") ^ (if check_bound t then " bound" else "")
         | PrepScenarioError k -> Printf.sprintf "scenario_error %d" (int_of_nat k)
         | PrepCrash k -> Printf.sprintf "crash %d" (int_of_nat k)
         | PrepIncomparable -> "incomparable"
@@ -53,7 +53,8 @@ let build_cmd cmd tk = match cmd with
         | BCrash k -> Printf.sprintf "crash %d" (int_of_nat k)
         | BOk t ->
             (match cycle_check (nat_of_int 5000) t.t_indel (List.init !n nat_of_int) with
-             | CycAccepted -> "accepted"
+             | CycAccepted -> "accepted" ^ (let d0 = gdepth sc_gt (group_of (nat_of_int 0)) in
+                                            if wk_indel t.t_indel && uni_indel d0 t.t_indel && cov_indel t.t_indel (List.init !n nat_of_int) then " complete" else "")
              | CycRejected p -> "rejected " ^ String.concat " " (List.map (fun x -> string_of_int (int_of_nat x)) p)
              | CycIncomparable -> "incomparable"
              | CycFuel -> "fuel"))
